@@ -354,6 +354,9 @@ func (p *Parser) parseExpressionNested(precedence ast.Priority) ast.Node {
 		return nil
 	}
 	leftExp := prefix()
+	if _, isComment := leftExp.(*ast.Comment); isComment {
+		return leftExp // a comment is complete: what follows it (`// c` newline `-a`) is not its right operand.
+	}
 	if p.peekTokenIs(token.LAMBDA) && precedence == ast.LAMBDA { // allow lambda chaining without parentheses in input.
 		p.nextToken()
 		return p.parseLambdaMulti(leftExp)
